@@ -16,6 +16,7 @@ import hashlib
 import importlib.util
 import json
 import os
+import re
 import sys
 
 sys.path.insert(0, os.path.dirname(__file__))
@@ -31,7 +32,7 @@ CRITICAL_HOOK = {"AttemptFail", "Fault", "RoleEnd", "WaitFailNow", "Kill"}
 
 # ------------------------------------------------------------------------------------------------ part A: commithook
 def hook_cases(ctx):
-    n = ctx.q(10, 40)
+    n = ctx.q(10, 30)
     ops = ctx.q(5, 8)
     cs = [{"kind": "random", "seed": ctx.seed * 1000 + i, "ops": ops, "slow": (ctx.tier == "thorough" and i % 10 == 0)} for i in range(n)]
     cs += [{"kind": "stale"}, {"kind": "aba"}, {"kind": "stale", "graceful": True}]
@@ -172,6 +173,11 @@ def run_hook(ctx, binary):
             if vr["accepted"]:
                 ctx.notes.append("trace rejection vanished on re-validation: " + fp)
                 continue
+            if any(re.search(k["fingerprint"], fp) for k in ctx.known if k.get("status", "open") == "open"):
+                # a known deviation seen on a real trace of a random/gated run that the re-run did not hit again: not a new
+                # divergence, and nothing to conclude from the miss
+                ctx.notes.append("known deviation %s observed once for case %s, not hit again by the re-run" % (fp, c))
+                continue
             ctx.notes.append("unreproduced rejection of a recorded trace (%s) for case %s:\n%s" % (fp, c, describe(v, ev)))
             p = ctx.save_replay({"part": "hook", "case": c, "events": ev, "fingerprint": fp, "unreproduced": True})
             inconclusive.append("a recorded trace was rejected (%s) but the same schedule did not reproduce it; trace saved at %s" % (fp, p))
@@ -221,8 +227,8 @@ def repl_critical(c, r):
 
 def run_repl(ctx, binary):
     beh = ctx.tlc_behaviours("ReadReplica.tla", ctx.q("c45_repl_sim_quick.cfg", "c45_repl_sim_thorough.cfg"),
-                             num=ctx.q(120, 600), depth=ctx.q(18, 30), procs=4)
-    beh = beh[:ctx.q(48, 240)]
+                             num=ctx.q(120, 400), depth=ctx.q(18, 30), procs=4)
+    beh = beh[:ctx.q(48, 160)]
     hist = {}
     for b in beh:
         for s in b:
